@@ -331,6 +331,8 @@ def param_sets(ctx):
     for (w, l) in big:
         for fd in (False, True):
             out.append((dict(BASE, seed=1, width=w, length=l, max_reward=6, force_down=fd), False))
+    for mr in (1023, 10 ** 17, 2 ** 64):         # very large maximum rewards (accepted by the parameter checks)
+        out.append((dict(BASE, seed=2, width=2, length=2, max_reward=mr, force_down=False), False))
     return out
 
 
@@ -372,7 +374,7 @@ def run(ctx):
     tot.setdefault("violations", []).extend(ow)
     tot["files"] += n_ow
     if not tot.get("violations") and tot["entries_solved"] < 100:
-        raise par.HarnessError("C11 vacuity guard: %d entries solved" % tot["entries_solved"])
+        raise par.GuardError("C11 vacuity guard: %d entries solved" % tot["entries_solved"])
     cov = {"states": tot["files"], "transitions": tot["files"] + tot["entries_solved"], "traces_validated_against_impl": tot["files"],
            "evaluations": tot["files"], "distinct_nontrivial": tot["nontrivial"], "cli_parameter_sets": len(sets),
            "files_structural_only": tot["structural_only"], "overwrite_history_calls": n_ow, "game_entries_solved_by_batch_runner": tot["entries_solved"],
